@@ -1442,6 +1442,9 @@ class Pregex():
 
             :param str pattern: The pattern that is to be examined.
             '''
+            if _re.match(r"\(\?(?:=|!|<=|<!)", pattern) is not None:
+                # A lookaround assertion is not a group.
+                return False
             if pattern.startswith('(') and pattern.endswith(')'):
                 n_open = 0
                 for i in range(1, len(pattern) - 1):
@@ -1488,10 +1491,10 @@ class Pregex():
 
         if len(_re.split(pattern=r"(?<!\\)\|", string=temp)) > 1:
                 return _Type.Alternation, True
-        elif _re.fullmatch(r"(?:\^|\\A|\(\?<=.+\)).+|.+(?:(?<!\\)\$|\\Z|\(\?=.+\))",
+        elif _re.fullmatch(r"(?:\^|\\A|\(\?<=.+\)).*|.*(?:(?<!\\)\$|\\Z|\(\?=.+\))",
             pattern, flags=__class__.__flags) is not None:
             return _Type.Assertion, False
-        elif _re.fullmatch(r"(?:\\b|\\B|\(\?<!.+\)).+|.+(?:\\b|\\B|\(\?!.+\))",
+        elif _re.fullmatch(r"(?:\\b|\\B|\(\?<!.+\)).*|.*(?:\\b|\\B|\(\?!.+\))",
             pattern, flags=__class__.__flags) is not None:
             return _Type.Assertion, True
         elif _re.fullmatch(r"(?:\\.|[^\\])?(?:\?|\*|\+|\{(?:\d+|\d+,|,\d+|\d+,\d+)\})",
